@@ -24,6 +24,20 @@ def generate(rng, tier):
     if tier == "thorough":
         cs += c03.generate(rng, "quick")
         cs += c01.generate(rng, "quick")
+    # negative multiples of N as the base of the client's modpow (B = k*v mod N with k*v > N), S = 0 / 1 / N-1
+    for _ in range(200 if tier == "quick" else 2000):
+        us, ps = cred(rng), cred(rng)
+        salt, a = rbytes(rng, 32), rbytes(rng, 32)
+        x = pyref.calc_x(pyref.normalize(us).encode(), pyref.normalize(ps).encode(), salt); v = pow(7, x, N)
+        Bv = rng.choice([(3 * v) % N, (3 * v + 1) % N, (3 * v - 1) % N])
+        if Bv + N < (1 << 256) and rng.random() < 0.3: Bv += N
+        B32 = Bv.to_bytes(32, "little")
+        if B32 in (Z32, N_LE): continue
+        e = client_expect(us, ps, 7, N, B32, salt, a)
+        if e is None: continue
+        base = "%s %s 7 %s %s %s" % (enc(us), enc(ps), N_LE.hex(), B32.hex(), salt.hex())
+        cs.append(Case("cli.new %s | %s" % (base, a.hex()), "client-base-multiple-of-N", "ok %s %s ~32" % (e["A32"].hex(), e["M1"].hex())))
+        cs.append(Case("cli.verify %s %s | %s" % (base, e["M2"].hex(), a.hex()), "client-base-multiple-of-N-verify", "ok %s ~32" % e["K"].hex()))
     # former divergence classes
     B = le32(5).hex()
     for g in (0, 1, 2, 7, 10, 255):
